@@ -147,6 +147,32 @@ def run(tier):
         elif not x.get("ok") or x.get("out") != want:
             C.violation(key, "lookup of key %s by %s in a map with keys %s (+%d fillers): engine %s, expected %s" % (
                 key["look"], p, key["ins"], v["pad"], x.get("out") if x.get("ok") else "error: " + (x.get("msg") or "")[:80], want), {"job": job, "expected": want, "got": x})
+    # ---- "the ordering used by sort": every arrangement of up to 4 values out of numbers in every encoding and none goes
+    # through the plain `sort`; apart from the none values (whose place is not demanded) the result is non-decreasing by
+    # mathematical value, whatever the input order, and a permutation of the input
+    import itertools
+    SV = [("0", {"$i64": "0"}, 0), ("-1", {"$i128": "-1"}, -1), ("1", {"$u64": "1"}, 1), ("0.5", {"$f64": "0.5"}, 0.5), ("-1.5", {"$f64": "-1.5"}, -1.5),
+          (str(2**64), {"$u128": str(2**64)}, 2**64), ("N", None, None)]
+    sjobs, smeta = [], []
+    for n_ in (2, 3, 4):
+        for combo in itertools.permutations(range(len(SV)), n_):
+            if n_ == 4 and (6 not in combo or sum(combo) % 3):
+                continue                    # arrangements of 4: only those containing none, a fixed third
+            sjobs.append({"ctx": {"xs": [SV[i][1] for i in combo]}, "steps": [{"op": "render_str", "src": "{% for e in xs | sort %}{% if e is none %}N{% else %}{{ e }}{% endif %},{% endfor %}", "auto": False}]})
+            smeta.append(combo)
+    sres = vp.run_jobs(sjobs, tag="c15-sort")
+    for combo, rr, job in zip(smeta, sres, sjobs):
+        C.count()
+        C.nontrivial(["sort", combo])
+        x = rr[0]
+        if x.get("panic") or x.get("abort") or not x.get("ok"):
+            C.violation({"kind": "sort-error", "xs": [SV[i][0] for i in combo]}, "sort of %s fails: %s" % ([SV[i][0] for i in combo], (x.get("msg") or x.get("disp", ""))[:120]), {"job": job})
+            continue
+        got = x["out"].split(",")[:-1]
+        byname = {SV[i][0]: SV[i][2] for i in combo}
+        nums = [byname.get(g) for g in got if g != "N"]
+        if sorted(got) != sorted(SV[i][0] for i in combo) or None in nums or any(a > b for a, b in zip(nums, nums[1:])):
+            C.violation({"kind": "sort-order", "xs": [SV[i][0] for i in combo]}, "sort of %s gives %s: apart from none values, not the input in non-decreasing order" % ([SV[i][0] for i in combo], got), {"job": job})
     C.cov["explanation"] = ("laws of C15 model-checked by TLC over recorded relation matrices (%d values, all pairs and triples), API-level and template-level; "
                             "key lookups enumerated by TLC (MC_Keys) and replayed" % n)
     C.cov["rule"] = "pairs/triples over the value universe; key-lookup vectors (inserted set, padding, lookup key, path)"
